@@ -199,6 +199,26 @@ class LibMixin:
             v = self.fresh_value(t, "sb")
             self.type_facts(st, v, t, param=False)
             return v
+        if callee in ("context.WithCancel", "context.WithTimeout", "context.WithDeadline", "context.WithCancelCause"):
+            self.models_used.add("%s (returns a non-nil derived context and a non-nil cancel function; cancellation timing is not modelled)" % callee)
+            for a in args:
+                try:
+                    self.ev(a, st)
+                except Unsupported:
+                    pass
+            self.trace_event(st, callee)
+            t = self.T(e)
+            out = []
+            for el in t.under().d.get("elems"):
+                et = self.prog.types[el["t"]]
+                v = self.fresh_value(et, "ctx")
+                self.type_facts(st, v, et, param=False)
+                if isinstance(v, IfaceV):
+                    self.facts.append(v.tag != rid(0))
+                elif isinstance(v, FuncV) and v.term is not None:
+                    self.facts.append(v.term != z3.BitVecVal(0, v.term.size()) if z3.is_bv(v.term) else TRUE)
+                out.append(v)
+            return TupleV(out)
         if callee.startswith("sync.(*Mutex).") or callee.startswith("sync.(*RWMutex)."):
             self.models_used.add("sync.Mutex/RWMutex (mutual exclusion is not modelled: every shared read is arbitrary anyway)")
             return TupleV([])
